@@ -373,3 +373,98 @@ func init() {
 		Doc: "repr escaping is total: every return of py.StringEscape lies after its per-character loop (no fast path that emits the content unexamined)",
 		Run: runEscapeMustPass})
 }
+
+// ---- C17.R3: the operand sequence is read before the receiver's storage is changed ----
+
+// In a method of a mutable container that takes another sequence as operand (slice assignment), the operand may be
+// the container itself or a view/iterator over it. Reading it lazily while the receiver's backing array is already
+// being rewritten yields items that were just overwritten. The rule: in every branch, every call that takes the
+// operand parameter as an argument lies before the first assignment to the receiver's storage in that branch.
+func runOperandBeforeMutation(c *Ctx, r *Rep) {
+	p := c.MustPkg("py")
+	targets := [][2]string{{"List", "M__setitem__"}}
+	n := 0
+	for _, tg := range targets {
+		fd := c.MethodDecl("py", tg[0], tg[1])
+		if fd == nil || fd.Body == nil {
+			r.undecided("selfoperand|(*py."+tg[0]+")."+tg[1], token.NoPos, "anchor method not found")
+			continue
+		}
+		id := "(*py." + tg[0] + ")." + tg[1]
+		r.analysed(id)
+		recv := fd.Recv.List[0].Names[0].Name
+		// operand: the last parameter
+		params := fd.Type.Params.List
+		operand := params[len(params)-1].Names[len(params[len(params)-1].Names)-1].Name
+		var walk func(stmts []ast.Stmt, mutatedAt token.Pos)
+		walk = func(stmts []ast.Stmt, mutatedAt token.Pos) {
+			for _, s := range stmts {
+				// uses of the operand as a call argument in this statement (not descending into nested blocks)
+				checkUses := func(node ast.Node) {
+					ast.Inspect(node, func(m ast.Node) bool {
+						switch m.(type) {
+						case *ast.BlockStmt:
+							return false
+						}
+						call, ok := m.(*ast.CallExpr)
+						if !ok {
+							return true
+						}
+						for _, a := range call.Args {
+							if exprStr(a) == operand {
+								n++
+								if mutatedAt != token.NoPos {
+									r.bad(fmt.Sprintf("selfoperand|%s|%s", id, exprStr(call.Fun)), call.Pos(), "%s reads its operand `%s` through %s after the receiver's storage has already been changed (at %s): when the operand is the container itself, or an iterator over it, the items read are the ones just overwritten (L[1:2] = L); materialise the operand first", id, operand, exprStr(call.Fun), c.Pos(mutatedAt))
+								} else {
+									r.ok(fmt.Sprintf("selfoperand|%s|%s", id, exprStr(call.Fun)), call.Pos(), "the operand is read before the receiver's storage is changed")
+								}
+							}
+						}
+						return true
+					})
+				}
+				switch x := s.(type) {
+				case *ast.IfStmt:
+					if x.Init != nil {
+						checkUses(x.Init)
+					}
+					checkUses(x.Cond)
+					walk(x.Body.List, mutatedAt)
+					switch e := x.Else.(type) {
+					case *ast.BlockStmt:
+						walk(e.List, mutatedAt)
+					case *ast.IfStmt:
+						walk([]ast.Stmt{e}, mutatedAt)
+					}
+				case *ast.ForStmt:
+					walk(x.Body.List, mutatedAt)
+				case *ast.RangeStmt:
+					walk(x.Body.List, mutatedAt)
+				case *ast.BlockStmt:
+					walk(x.List, mutatedAt)
+				default:
+					checkUses(s)
+					if as, ok := s.(*ast.AssignStmt); ok && mutatedAt == token.NoPos {
+						for _, l := range as.Lhs {
+							ls := exprStr(l)
+							if strings.HasPrefix(ls, recv+".Items") {
+								mutatedAt = as.Pos()
+							}
+						}
+					}
+				}
+			}
+		}
+		walk(fd.Body.List, token.NoPos)
+	}
+	_ = p
+	if n == 0 {
+		r.undecided("selfoperand|sites", token.NoPos, "no call taking the operand sequence found in the slice-assignment method")
+	}
+}
+
+func init() {
+	register(&Rule{ID: "C17.R3", Prop: "C17", Floor: 1,
+		Doc: "a container used as its own operand: in list slice assignment every read of the operand sequence (a call taking it as argument) lies before the first change of the receiver's storage in the same branch, so `L[a:b] = L` and `L[a:b] = iter(L)` see the old items",
+		Run: runOperandBeforeMutation})
+}
